@@ -34,8 +34,58 @@ AlphaMid3 == {[a |-> x, args |-> l] : x \in {"push", "pop", "flip"}, l \in MidLi
              \cup {[a |-> x, m |-> p[1], n |-> p[2]] : x \in {"roll", "unroll"}, p \in {<<2, 1>>, <<3, 1>>, <<3, -1>>}}
              \cup {[a |-> "swap"], [a |-> "add", e |-> 1, c |-> 1]}
 AppsFI  == {<<"F", "I">>}
+\* ---- modifiers and macros on stack steps ------------------------------------------------------
+W(body, inv, omit, via, sty) == [a |-> "wrap", body |-> body, inv |-> inv, omit |-> omit, via |-> via, sty |-> sty]
+OnStep(x, inv, omit, sty) == W(<<x>>, inv, omit, "step", sty)      \* modifiers written on the step itself
+Alias(x, inv, omit, sty)  == W(<<x>>, inv, omit, "macro", sty)     \* a macro over one step, modifiers on the invocation
+Mac(body, inv, omit, sty) == W(body, inv, omit, "macro", sty)      \* a macro over a pipeline
+
+IPush(l)  == [a |-> "push", args |-> l]
+IPop(l)   == [a |-> "pop", args |-> l]
+IFlip(l) == [a |-> "flip", args |-> l]
+IRoll(m, n)   == [a |-> "roll", m |-> m, n |-> n]
+IUnroll(m, n) == [a |-> "unroll", m |-> m, n |-> n]
+ISwap    == [a |-> "swap"]
+ILPush(f) == [a |-> "lpush", flags |-> f]
+ILPop(f)  == [a |-> "lpop", flags |-> f]
+Add1     == [a |-> "add", e |-> 1, c |-> 1]
+
+\* every way of writing one step: plain; inv / omit_fwd / omit_inv on the step; the same through an alias macro
+Variants(B, stys) ==
+    B \cup {OnStep(x, TRUE, "", s) : x \in B, s \in stys}
+      \cup {OnStep(x, FALSE, o, "suf") : x \in B, o \in {"fwd", "inv"}}
+      \cup {Alias(x, FALSE, "", "suf") : x \in B}
+      \cup {Alias(x, TRUE, "", s) : x \in B, s \in stys}
+      \cup {Alias(x, FALSE, o, "suf") : x \in B, o \in {"fwd", "inv"}}
+\* programs of one and two steps
+BaseMod2q == {IPush(<<1>>), IPush(<<1, 2>>), IPop(<<2>>), IPop(<<2, 1>>), IFlip(<<1>>), IRoll(2, 1), ILPush({1}), ILPop({2}), Add1}
+AlphaMod2q == Variants(BaseMod2q, {"suf"})
+BaseMod2 == BaseMod2q \cup {IUnroll(2, 1), ISwap, ILPush({2, 3}), ILPop({1, 3}), IPop(<<1>>)}
+AlphaMod2 == Variants(BaseMod2, {"suf", "pre", "eq"})
+                \cup {OnStep(x, TRUE, o, s) : x \in {IPush(<<1>>), IPop(<<2>>), ILPush({1})}, o \in {"fwd", "inv"}, s \in {"suf", "pre", "eq"}}
+\* programs of up to three steps (push, value change, pop: the shape in which an ignored modifier shows)
+AlphaMod3 == {IPush(<<1>>), IPop(<<1>>), IPop(<<2>>), Add1, ILPush({1}), ILPop({1}), IRoll(2, 1), IPush(<<1, 2>>)}
+        \cup {OnStep(x, TRUE, "", "suf") : x \in {IPush(<<1>>), IPop(<<1>>), ILPush({1}), Add1}}
+        \cup {OnStep(IPop(<<2>>), TRUE, "", "pre"), OnStep(ILPop({1}), TRUE, "", "pre"), OnStep(IRoll(2, 1), TRUE, "", "eq"),
+              OnStep(IPush(<<1, 2>>), TRUE, "", "eq")}
+        \cup {Alias(IPush(<<1>>), FALSE, "", "suf"), Alias(IPop(<<1>>), FALSE, "", "suf")}
+        \cup {Alias(IPush(<<1>>), TRUE, "", "pre"), Alias(IPop(<<1>>), TRUE, "", "suf"), Alias(ILPush({1}), TRUE, "", "eq"),
+              Alias(IRoll(2, 1), TRUE, "", "suf"), Alias(IPush(<<1, 2>>), TRUE, "", "suf")}
+        \cup {OnStep(IPush(<<1>>), FALSE, "fwd", "suf"), OnStep(IPop(<<1>>), FALSE, "inv", "pre"),
+              Alias(IPop(<<2>>), FALSE, "fwd", "suf"), Alias(IPush(<<1>>), FALSE, "inv", "eq")}
+\* macros over pipelines: the stack of the application is the stack of the expansion
+Bodies == {<<IPush(<<1>>), Add1>>, <<Add1, IPop(<<1>>)>>, <<IPush(<<1>>), IPop(<<2>>)>>, <<ILPush({1}), Add1>>, <<Add1, ILPop({1})>>}
+AlphaMac3 == {IPush(<<1>>), IPop(<<1>>), IPop(<<2>>), Add1, ILPush({1}), ILPop({1})}
+        \cup {Mac(b, i, "", "suf") : b \in Bodies, i \in BOOLEAN}
+        \cup {Mac(<<IPush(<<1>>), Add1>>, FALSE, "fwd", "suf"), Mac(<<Add1, IPop(<<1>>)>>, TRUE, "inv", "pre"),
+              \* a macro in a macro, and a modified step in a macro
+              Mac(<<Alias(IPush(<<1>>), FALSE, "", "suf"), Add1>>, FALSE, "", "suf"),
+              Mac(<<Add1, Alias(IPush(<<1>>), TRUE, "", "suf")>>, FALSE, "", "suf"),
+              Mac(<<OnStep(IPop(<<1>>), FALSE, "fwd", "suf"), Add1, IPush(<<2>>)>>, TRUE, "", "eq")}
 \* simulation of long programs: an alphabet biased towards pushes so that
 \* long programs do not all underflow at once
 AlphaSim == StackIns(2, 6, {{1}, {2, 3}, {1, 2, 3, 4}}) \cup Probes
             \cup {[a |-> "push", args |-> l] : l \in Lists(3)}
+            \cup Variants({IPush(<<1>>), IPush(<<2, 3>>), IPop(<<1>>), IPop(<<4, 2>>), ILPush({1, 2}), IRoll(3, 1)}, {"suf", "pre"})
+            \cup {Mac(b, i, "", "suf") : b \in Bodies, i \in BOOLEAN}
 =============================================================================
